@@ -92,12 +92,31 @@ StmtWithFault(e) ==
   /\ LET bp == BadProbes(e) IN Report(e, FaultWhat(e, bp), bp)
   /\ st' = st          \* the run happened on a copy: the history's own state does not move
 
+\* ---------------------------------------------------------------- histories outside the SQLTables grammar
+\* (foreign-key cascades, trigger targets: events xschema / xfault / xstmt).  Only the part of the property
+\* that needs no statement semantics is judged: a fired fault, and a naturally failed statement (foreign-key
+\* error, SIGNAL, duplicate key ..), leave EVERY table -- cascade and trigger targets included -- unchanged.
+XColls(rows) == IF rows = <<>> THEN <<>> ELSE [i \in DOMAIN rows[1] |-> "none"]
+XChanged(e) == {t \in DOMAIN e.pre : ~(Len(e.post[t]) = Len(e.pre[t]) /\ BagEqRows(e.post[t], e.pre[t], XColls(e.pre[t])))}
+XWhat(e) ==
+  IF e.ev = "xfault" THEN
+     (IF ~Fired(e) THEN <<>>
+      ELSE (IF e.reply.kind # "err" THEN <<"fault:kind">> ELSE <<>>) \o (IF XChanged(e) # {} THEN <<"fault:post">> ELSE <<>>))
+  ELSE IF e.reply.kind \in {"err", "panic"} /\ XChanged(e) # {} THEN <<"fail:post">> ELSE <<>>
+XReport(e) ==
+  LET what == XWhat(e) IN
+  IF what = <<>> THEN TRUE
+  ELSE PrintT("MF " \o ToJson([l |-> l, id |-> e.id, ev |-> e.ev, k |-> e.k, calls |-> e.calls, what |-> what,
+                                changed |-> XChanged(e), badprobes |-> {}, fired |-> Fired(e)]))
+
 FNext ==
   /\ l <= Len(TraceLog)
   /\ l' = l + 1
   /\ LET e == TraceLog[l] IN
      CASE e.ev = "schema" -> st' = [tabs |-> e.tabs, autoinc |-> e.autoinc, lastid |-> 0]
        [] e.ev = "fault" -> StmtWithFault(e)
+       [] e.ev \in {"xfault", "xstmt"} -> XReport(e) /\ st' = st
+       [] e.ev = "xschema" -> st' = st
        [] e.ev = "stmt" -> (LET bp == BadProbes(e) IN Report(e, StmtWhat(e, bp), bp)) /\ Judge(e)
        [] OTHER -> st' = [tabs |-> <<>>, autoinc |-> <<>>, lastid |-> 0]
 =============================================================================
